@@ -336,6 +336,4 @@ DeadAfterFailedRedemption == kind = "code" => \A r \in Reqs : lateRef[r] => out[
 \* nothing is honoured after its validity window
 NoSuccessAfterExpiry == kind \in EntryKinds => \A r \in Reqs : lateTick[r] => out[r] # "ok"
 
-\* expected to be VIOLATED (vacuity guards: a success is reachable at every site, also after a refusal elsewhere)
-NeverOk == \A r \in Reqs : out[r] # "ok"
 =============================================================================
